@@ -184,23 +184,32 @@ def child_detect_faults(job):
 # ---------------------------------------------------------------------- benign sets
 BENIGN_WORDS = ("alpha beta gamma delta lorem ipsum dolor sit amet hello world caption line two "
                 "quick brown fox over under yes no ok then again music wait what now "
-                "42 3rd 1 it's (laughs) MAN: rock&roll a<b x>y café ♪ naïve 100% [door] ... -- ¿qué?").split()
+                "42 3rd 1 it's (laughs) MAN: rock&roll a<b x>y café ♪ naïve 100% [door] ... -- ¿qué? "
+                "\"quoted\" 'single' 😀 a&amp;b &lt; tab\there C:\\dir 5/6 #1 @home =").split(" ")
 
 
 def benign_text(rng):
     return " ".join(rng.choice(BENIGN_WORDS) for _ in range(rng.randint(1, 4)))
 
 
-def benign_recipe(rng):
-    """A caption set whose visible text carries no other format's marker; starts >= 5 s, cues >= 1 s
-    long and >= 5 s apart (keeps MicroDVD pseudo-headers and SCC pre-roll / flash cues out: those are C17's)."""
-    nl = rng.choice([1, 1, 2])
-    layouts = [docs.gen_layout(rng, abs_units=False) for _ in range(rng.randint(0, 2))]
+def benign_recipe(rng, abs_units=False):
+    """A caption set whose visible text carries no other format's marker.  Explored domain: cues >= 1 s long and
+    >= 5 s apart (sub-frame / flash cues and overlapping pre-roll are degenerate timings that belong to C17/C06),
+    first cue anywhere from 0 s to 23 h (timecodes and pycaption's timestamp formatting wrap at 24 h: C02's domain), fractional microseconds, 1-3 languages, now and then two cues with the
+    same timespan (merged by several writers), large sets, odd style values, layouts in %% (and in px/em/c/pt when
+    the writer is given the video size)."""
+    nl = rng.choice([1, 1, 1, 2, 2, 3])
+    layouts = [docs.gen_layout(rng, abs_units=abs_units and rng.random() < 0.6) for _ in range(rng.randint(0, 2))]
+    if layouts and rng.random() < 0.15:
+        layouts.append({"origin": [[rng.choice([0, 100, 120]), "%"], [rng.choice([0, 99, 150]), "%"]]})
+    size = rng.random()
+    ncaps = rng.randint(1, 4) if size < 0.95 else (rng.choice([100, 130]) if size < 0.993 else 1005)
     langs = []
-    for lang in rng.sample(docs.LANGS, nl):
-        t = rng.choice([0, 0, 40, 1000, 5000, 6000, 65000, 3600000])
+    for li, lang in enumerate(rng.sample(docs.LANGS, nl)):
+        t = rng.choice([0, 0, 40, 1000, 5000, 6000, 65000, 3600000, 36000000, 82800000])   # up to 23 h: SMPTE timecodes wrap at 24 h
         caps = []
-        for _ in range(rng.randint(1, 4)):
+        n_here = ncaps if li == 0 else rng.randint(1, 3)
+        for ci in range(n_here):
             dur = rng.choice([1000, 1500, 2500, 4000])
             nodes = []
             nlines = rng.randint(1, 2)
@@ -208,19 +217,29 @@ def benign_recipe(rng):
                 it = rng.random() < 0.25
                 if it:
                     nodes.append({"t": "style", "start": True, "c": {"italics": True}})
-                nodes.append({"t": "text", "c": benign_text(rng), "layout": rng.choice(layouts) if layouts and rng.random() < 0.4 else None})
+                nodes.append({"t": "text", "c": benign_text(rng) if n_here < 50 else "w%d" % ci,
+                              "layout": rng.choice(layouts) if layouts and rng.random() < 0.4 else None})
                 if it:
                     nodes.append({"t": "style", "start": False, "c": {"italics": True}})
                 if k < nlines - 1:
                     nodes.append({"t": "break"})
-            c = {"start": t * 1000, "end": (t + dur) * 1000, "nodes": nodes,
-                 "style": "default" if rng.random() < 0.6 else rng.choice([{"italics": True}, {"color": "red"}, {"class": "c1"}])}
+            frac = 0.5 if rng.random() < 0.05 else 0
+            c = {"start": t * 1000 + frac, "end": (t + dur) * 1000 + frac, "nodes": nodes,
+                 "style": "default" if rng.random() < 0.6 else rng.choice(
+                     [{"italics": True}, {"color": "red"}, {"class": "c1"}, {"italics": False}, {"x-unknown": "v"},
+                      {"bold": True, "underline": True}, {"text-align": "right"}, {"font-size": "12pt", "font-family": "Arial"}])}
             if layouts and rng.random() < 0.4:
                 c["layout"] = rng.choice(layouts)
             caps.append(c)
+            if rng.random() < 0.08 and n_here < 50:
+                twin = {"start": c["start"], "end": c["end"], "nodes": [{"t": "text", "c": benign_text(rng)}], "style": "default"}
+                caps.append(twin)      # same timespan: merged by the SRT / legacy DFXP / single-positioning writers
             t += dur + 5000 + rng.choice([0, 500, 7000])
         langs.append({"lang": lang, "captions": caps, "layout": rng.choice(layouts) if layouts and rng.random() < 0.3 else None})
-    rec = {"langs": langs, "styles": "default" if rng.random() < 0.5 else {"c1": {"color": "blue", "font-size": "10pt"}}}
+    rec = {"langs": langs, "styles": "default" if rng.random() < 0.5 else rng.choice([
+        {"c1": {"color": "blue", "font-size": "10pt"}}, {"c1": {"italics": True}, "p": {"text-align": "center"}}, {}])}
+    if layouts and rng.random() < 0.2:
+        rec["layout"] = rng.choice(layouts)
     return rec
 
 
@@ -229,10 +248,14 @@ def benign_ctor(rng, w):
     if w != "LegacyDFXPWriter":
         if rng.random() < 0.3:
             kw["fit_to_screen"] = False
-        if rng.random() < 0.3:
-            kw["video_width"], kw["video_height"] = 640, 360
+        if rng.random() < 0.4:
+            kw["video_width"], kw["video_height"] = rng.choice([(640, 360), (1280, 720)])
+        if rng.random() < 0.15:
+            kw["relativize"] = False
     if w in ("DFXPWriter", "SinglePositioningDFXPWriter") and rng.random() < 0.3:
         kw["write_inline_positioning"] = True
+    if w == "SinglePositioningDFXPWriter" and rng.random() < 0.4:
+        kw["default_positioning"] = docs.gen_layout(rng, abs_units=False)
     return kw
 
 
@@ -414,7 +437,10 @@ def _run(seed, tier, a, t0, evidence_path):
     writers = sorted(WRITER_FORMAT)
     for i in range(n_pipe):
         w = writers[i % len(writers)] if i < 4 * len(writers) else rng.choice(writers)
-        pipelines.append({"recipe": benign_recipe(rng), "writer": w, "ctor": benign_ctor(rng, w)})
+        ctor = benign_ctor(rng, w)
+        # absolute units only when the writer knows the video size and relativizes (otherwise it refuses, by design)
+        abs_ok = "video_width" in ctor and ctor.get("relativize", True)
+        pipelines.append({"recipe": benign_recipe(rng, abs_units=abs_ok), "writer": w, "ctor": ctor})
     # the recorded example of every open known finding is re-run each time, so that the KNOWN-FINDING line
     # does not depend on the seed (and disappears by itself once the defect is repaired)
     for f in load_known():
